@@ -48,8 +48,15 @@ QUALNAMES = ["my_func", "myXfunc", "MY_FUNC", "Foo.bar", "foo", "a%b", "aXb", "Ã
 LIMITS = [0, 1, 2, 1000]
 
 
+_FUNCS: Dict[Tuple[str, str], Any] = {}
+
+
 def mkfunc(module: str, qualname: str):
-    f = types.FunctionType((lambda: 0).__code__, {})
+    """One function object per (module, qualname) for the life of the process, as in a real program (state that the code
+    under test keys by function object is therefore carried from batch to batch)."""
+    if (module, qualname) in _FUNCS:
+        return _FUNCS[(module, qualname)]
+    f = _FUNCS[(module, qualname)] = types.FunctionType((lambda: 0).__code__, {})
     f.__module__ = module
     f.__qualname__ = qualname
     return f
@@ -101,7 +108,17 @@ BATCHES: List[List[Tuple[str, str, str]]] = [
     [("m", "a*b", "int"), ("m", "a?b", "int"), ("m", "my[_X]func", "int")],
     [("m2", f"big{i:04d}", "int") for i in range(1200)],   # index 12: a batch larger than any plausible chunk size
     [("m", "gen", "yint"), ("m", "gen", "ystr"), ("m", "gen", "none")],   # index 13: rows that differ only in their yield type
+    [("m", "x", "bad"), ("m", "x", "int"), ("m", "x", "str")],            # index 14: an unserialisable and two good traces of ONE function
+    [("m", "x", "int")],                                                   # index 15: a good trace of the function whose trace failed before
 ]
+
+
+def as_batch(traces: List[Any], n: int) -> Any:
+    """add() takes any iterable of traces: the n-th add of a history hands over a list, a one-shot iterator, a tuple or a
+    generator in turn."""
+    return (list, iter, tuple, lambda l: (t for t in l))[n % 4](traces)
+
+
 BIG = 12
 
 
@@ -193,7 +210,7 @@ def apply_history(path: str, hist: Sequence[Tuple], res: Optional[Result] = None
     for ev in hist:
         if ev[0] == "add":
             batch = BATCHES[ev[2]]
-            stores[ev[1]].add([mktrace(s) for s in batch])
+            stores[ev[1]].add(as_batch([mktrace(s) for s in batch], list(hist).index(ev) + ev[2]))
             for s in batch:
                 r = row_of(s)
                 if r is not None:
